@@ -24,6 +24,7 @@ func init() {
 				"outside the draw loop, and returned only on the true edge of the requirement filter applied to that candidate; the filter is " +
 				"an all-of sweep over the required sets.",
 			Rules: []string{
+				"R2.0 the draw routines the candidate loop relies on are schema instances (= C01 R1.1-R1.3, re-run here)",
 				"R2.1 alphabet provenance: the indexed list is strings.Split(concat(X), \"\") with X a golang-set Set; concat appends each element of one full iteration exactly once; every element added to a set by the set constructor is an element of strings.Split(s, \"\")",
 				"R2.2 bound agreement: the draw bound is uint32(len(L)) and the draw result (through conversions only) indexes the same SSA value L; the draw result has no other use",
 				"R2.3 one independent draw per position: the draw lies in a counted loop 0<=i<Length step 1; the drawn character is stored at tokens[i] unconditionally; tokens = make([]Token, Length) with the same Length",
@@ -173,6 +174,7 @@ func runC02(p *core.Program, r *core.Report) {
 		return
 	}
 	name := core.FuncName(g.fn)
+	checkDrawRoutines(p, r, "R2.0", "R2.0", "R2.0")
 	checkAlphabetProvenance(p, r, "R2.1")
 	checkDrawShape(p, r, g, "R2.2", "R2.3")
 	checkWholeCandidateRejection(p, r, g, "R2.4")
@@ -353,7 +355,7 @@ func checkDrawShape(p *core.Program, r *core.Report, g *charGen, r22, r23 string
 	if ld, ok := g.tokStore.Val.(*ssa.UnOp); ok {
 		if al, ok := ld.X.(*ssa.Alloc); ok {
 			lit := core.StructLiteral(al)
-			if v := lit["tType"]; v != nil {
+			if v := lit[tokenTypeField(p)]; v != nil {
 				if k, isC := core.ConstInt(v); isC {
 					at, _, okC := core.ConstOf(p.LibPkg.Types, "AtomType")
 					if okC && at.String() == fmt.Sprint(k) {
@@ -438,7 +440,7 @@ func checkWholeCandidateRejection(p *core.Program, r *core.Report, g *charGen, r
 				if ld, ok := sc.Call.Args[0].(*ssa.UnOp); ok && ld.X == ssa.Value(g.pwd) {
 					// p.tokens was stored from tokens before
 					for _, ref := range core.Referrers(g.pwd) {
-						if fa, ok := ref.(*ssa.FieldAddr); ok && core.FieldName(fa) == "tokens" {
+						if fa, ok := ref.(*ssa.FieldAddr); ok && core.FieldName(fa) == passwordTokensField(p) {
 							for _, rr := range core.Referrers(fa) {
 								if st, ok := rr.(*ssa.Store); ok && core.StripType(st.Val) == ssa.Value(g.tokens) && core.InstrDominates(st, sc) {
 									okStr = true
